@@ -15,7 +15,7 @@ if [ -n "$DEMO" ]; then
 fi
 (cd /repo && timeout 900 /venv/bin/python -m pytest -q -p no:cacheprovider --timeout=900 --continue-on-collection-errors tests 2>&1 | tail -1)
 cd /verif
-timeout 900 ./check "$PROP" > /tmp/_seed_check.log 2>&1; RC=$?
+VERIF_EVIDENCE_DIR=out/scratch_evidence timeout 900 ./check "$PROP" > /tmp/_seed_check.log 2>&1; RC=$?
 grep -E "^VIOLATION|^$PROP tier" /tmp/_seed_check.log | cut -c1-260 | head -8
 echo "check exit: $RC"
 git -C /repo checkout -- .
